@@ -3,10 +3,13 @@
 (M) TLC exhausts specs/replication/Replication.tla: producers (WAL sequence under w.mu, hook
     outside it, Sender.Replicate assigning its own sequence and enqueueing in two steps), bounded
     queue, distributor, per-entry tags + cumulative hash + checkpoints, a wire adversary
-    (Flip/Dup/Drop/Swap/Splice/ReplayCp) and the receiver's checks as written.  The invariants
-    that hold for the code as written are checked; the two that the as-written shape cannot
-    satisfy (HealthyNeverDropped, GapsOnlyDrops) are checked on the repaired shape (Atomic) and
-    TLC's counterexample on the as-written shape is recorded as a *prediction*, never a verdict.
+    (Flip/Dup/Drop/Swap/Splice/ReplayCp + the composite DelayCps) and the receiver's checks as
+    written.  The spec models the code as it is since fix d5f2c74 (Atomic: sequence.Add and the
+    enqueue are one critical section) and all invariants are checked, with one adversary step on
+    2 producers x 2 entries and TWO adversary steps on a single producer.  The pre-fix shape is a
+    negative control: MC_ctl_aswritten.cfg must violate HealthyNeverDropped (a prediction about the
+    model, never a verdict) and Gen_ctl_aswritten.cfg supplies the schedules that realise the old
+    inversion on real code if the critical section is ever removed.
 (G) the same module emits producer/distributor schedules and adversary schedules.
 (T) harness/cmd/replication replays them on the real wal.Writer -> Coordinator.StartReplication
     hook -> Sender -> proxy -> Receiver pipeline (schedules enforced with overlaygen gates),
@@ -27,8 +30,8 @@ GATES = [
     "internal/wal/wal.go|AppendRaw|before-call:hook|wal.beforeHook",
     "internal/wal/wal.go|AppendRawWithMeta|before-call:hook|wal.beforeHook",
 ]
-IMPL_ACTIONS = ("WalAssign", "SndAssign", "Enqueue", "Dequeue", "Broadcast", "Flip", "Dup", "DropF", "Swap",
-                "Splice", "ReplayCp", "StartRecv", "Recv")
+IMPL_ACTIONS = ("WalAssign", "SndAssign", "Dequeue", "Broadcast", "Flip", "Dup", "DropF", "Swap",
+                "Splice", "ReplayCp", "DelayCps", "StartRecv", "Recv")
 # monitor codes that say the recording is inconsistent with itself, not that the property is broken
 HARNESS_CODES = ("trace-duplicate-append", "trace-inconsistent-end", "applied-after-drop")
 
@@ -79,7 +82,7 @@ def _cfg_consts(ctx, cfg):
     return out
 
 
-def _scenarios_from(ctx, traces, cfg, rng, limit, next_id, want_adv):
+def _scenarios_from(ctx, traces, cfg, rng, limit, next_id, atomic, keep=None):
     c = _cfg_consts(ctx, cfg)
     seen = set()
     uniq = []
@@ -96,22 +99,26 @@ def _scenarios_from(ctx, traces, cfg, rng, limit, next_id, want_adv):
             k = (t["conn"], t["reason"], len(t["wdropped"]) > 0,
                  tuple((a["op"], a["fld"]) for a in t["adv"]))
             by_class.setdefault(k, []).append(t)
-        picked = []
+        picked = [t for t in uniq if keep and keep(t)]          # classes that are always replayed in full
+        pk = {id(t) for t in picked}
         for k in sorted(by_class, key=str):
             lst = by_class[k]
             rng.shuffle(lst)
         quota = max(1, limit // max(1, len(by_class)))
         for k in sorted(by_class, key=str):
-            picked.extend(by_class[k][:quota])
-        rest = [t for k in sorted(by_class, key=str) for t in by_class[k][quota:]]
+            for t in by_class[k][:quota]:
+                if id(t) not in pk:
+                    picked.append(t)
+                    pk.add(id(t))
+        rest = [t for k in sorted(by_class, key=str) for t in by_class[k][quota:] if id(t) not in pk]
         rng.shuffle(rest)
         picked.extend(rest[:max(0, limit - len(picked))])
-        uniq = picked[:limit] if len(picked) > limit else picked
+        uniq = picked
     scs = []
     for t in uniq:
         scs.append({"id": next_id + len(scs), "kind": "sched", "nprod": c["NProd"], "perprod": c["PerProd"],
                     "buf": c["BufSize"], "cp": c["CpInterval"], "sched": t["sched"], "adv": t["adv"],
-                    "seed": ctx.seed, "maxpay": 96,
+                    "seed": ctx.seed, "maxpay": 96, "atomic": atomic,
                     "pred": {"conn": t["conn"], "applied": t["applied"], "stream": t["stream"]}})
     return scs, len(seen)
 
@@ -121,52 +128,56 @@ def run(ctx):
     rng = random.Random(ctx.seed)
 
     # ------------------------------------------------------------------ (M)
+    all_inv = ["AppliedIncreasing", "AppliedAuthentic", "CheckpointAnchors", "HealthyComplete", "GapsOnlyDrops",
+               "HealthyNeverDropped"]
     mc_cfg = "MC_small.cfg" if quick else "MC_large.cfg"
     mc = ctx.tlc("replication", "Replication", mc_cfg, coverage=True, timeout=2400, workers=6)
-    fired = {k: v[0] for k, v in mc.coverage.items()}
+    fired = {k: v[1] for k, v in mc.coverage.items()}        # <action>: distinct:total -> total evaluations
     for a in IMPL_ACTIONS:
         if fired.get(a, 0) == 0:
             raise InfraError("vacuous model: action %s never fired in %s (%s)" % (a, mc_cfg, fired))
-    fx_cfg = "MC_fixed.cfg" if quick else "MC_fixed_large.cfg"
-    fx = ctx.tlc("replication", "Replication", fx_cfg, timeout=2400, workers=6)
-    adv2 = None
-    if not quick:
-        adv2 = ctx.tlc("replication", "Replication", "MC_adv2.cfg", timeout=2400, workers=6)
-    inv = ctx.tlc("replication", "Replication", "MC_inversion.cfg", allow_violation=True, timeout=600, workers=2)
-    if inv.violated != "HealthyNeverDropped":
-        # the as-written shape no longer yields the inversion in the model: the model is what changed
-        raise InfraError("MC_inversion.cfg: expected TLC to find the assign/enqueue inversion, got %r" % inv.violated)
+    # two adversary steps (composite schedules such as Drop + DelayCps) on a single producer
+    adv2 = ctx.tlc("replication", "Replication", "MC_adv2.cfg", coverage=True, timeout=2400, workers=6)
+    fired2 = {k: v[1] for k, v in adv2.coverage.items()}
+    for a in ("DropF", "DelayCps", "Swap", "ReplayCp", "Recv"):
+        if fired2.get(a, 0) == 0:
+            raise InfraError("vacuous model: action %s never fired in MC_adv2.cfg (%s)" % (a, fired2))
+    ctl = ctx.tlc("replication", "Replication", "MC_ctl_aswritten.cfg", allow_violation=True, timeout=600, workers=2)
+    if ctl.violated != "HealthyNeverDropped":
+        # negative control: the pre-fix shape (two-step assign/enqueue) must still be rejected by the model
+        raise InfraError("MC_ctl_aswritten.cfg: expected TLC to reject the pre-fix shape, got %r" % ctl.violated)
     ctx.note("tlc_model_check", {
-        "as_written": {"cfg": mc_cfg, "distinct": mc.distinct, "generated": mc.generated, "depth": mc.depth,
-                       "invariants": ["AppliedIncreasing", "AppliedAuthentic", "CheckpointAnchors", "HealthyComplete"],
-                       "actions_fired": fired},
-        "repair_shape": {"cfg": fx_cfg, "distinct": fx.distinct, "generated": fx.generated, "depth": fx.depth,
-                         "invariants": ["SafetyAsWritten", "GapsOnlyDrops", "HealthyNeverDropped"]},
-        "two_step_adversary": (None if adv2 is None else {"cfg": "MC_adv2.cfg", "distinct": adv2.distinct,
-                                                            "generated": adv2.generated, "depth": adv2.depth}),
-        "inversion_prediction": {"cfg": "MC_inversion.cfg", "violated": inv.violated, "distinct": inv.distinct,
-                                 "counterexample_len": sum(1 for l in inv.counterexample if l.startswith("State "))},
+        "current_code": {"cfg": mc_cfg, "distinct": mc.distinct, "generated": mc.generated, "depth": mc.depth,
+                         "invariants": all_inv, "actions_fired": fired},
+        "two_step_adversary": {"cfg": "MC_adv2.cfg", "distinct": adv2.distinct, "generated": adv2.generated,
+                               "depth": adv2.depth, "invariants": all_inv, "actions_fired": fired2},
+        "negative_control_pre_fix_shape": {"cfg": "MC_ctl_aswritten.cfg", "violated": ctl.violated,
+                                           "distinct": ctl.distinct,
+                                           "counterexample_len": sum(1 for l in ctl.counterexample if l.startswith("State "))},
     })
 
     # ------------------------------------------------------------------ (G)
     scs = []
     gen_stats = {}
 
-    def gen(cfg, limit, adv, mode="check", num=None, depth=None):
-        res = ctx.tlc("replication", "Replication", cfg, timeout=2400, workers=6, mode=mode, num=num, depth=depth)
+    def gen(cfg, limit, atomic, keep=None):
+        res = ctx.tlc("replication", "Replication", cfg, timeout=2400, workers=6)
         if not res.traces:
             raise InfraError("generator %s emitted nothing" % cfg)
-        new, total = _scenarios_from(ctx, res.traces, cfg, rng, limit, len(scs) + 1, adv)
+        new, total = _scenarios_from(ctx, res.traces, cfg, rng, limit, len(scs) + 1, atomic, keep)
         gen_stats[cfg] = {"distinct": res.distinct, "generated": res.generated, "behaviours": total, "replayed": len(new)}
         scs.extend(new)
 
-    gen("Gen_sched_a.cfg", None, False)
-    gen("Gen_sched_c.cfg", 400 if quick else 1000, False)
+    def has_delay(t):
+        return any(a["op"] == "delaycps" for a in t["adv"])
+
+    gen("Gen_sched_c.cfg", 250 if quick else None, True)          # 3 producers x 1 entry, queue 1 (writer drops)
+    gen("Gen_sched_b.cfg", 250 if quick else 1500, True)          # 2 producers x 2 entries
+    gen("Gen_ctl_aswritten.cfg", None, False)                     # pre-fix schedules (regression guard)
+    gen("Gen_adv1.cfg", None, True)                               # every single adversary step
+    gen("Gen_adv2q.cfg", 500 if quick else None, True, has_delay)  # two steps: drop/dup/swap/replaycp/delaycps
     if not quick:
-        gen("Gen_sched_b.cfg", 1000, False)
-    gen("Gen_adv1.cfg", None, True)
-    if not quick:
-        gen("Gen_adv2.cfg", 1500, True)
+        gen("Gen_adv2.cfg", 1500, True, has_delay)                # two steps, all operations
     n_tlc = len(scs)
 
     # byte-level sweep of one entry frame and one checkpoint frame on an in-order stream (driver
@@ -177,14 +188,14 @@ def run(ctx):
         for off in range(0, 400, stride):
             for x in ((0x01, 0x40) if not quick else (0x01 if (off // stride) % 2 else 0x40,)):
                 scs.append({"id": len(scs) + 1, "kind": "sched", "nprod": 1, "perprod": 4, "buf": 4, "cp": 2,
-                            "sched": seq_sched, "seed": ctx.seed, "maxpay": 48,
+                            "sched": seq_sched, "seed": ctx.seed, "maxpay": 48, "atomic": False,
                             "adv": [{"op": "flipbyte", "i": frame_i, "j": 0, "fld": "", "off": off, "xor": x}]})
     n_bytes = len(scs) - n_tlc
 
     # free-running stress: 1..16 goroutines, random payload sizes, random checkpoint intervals and
     # queue sizes (the quantifier of the property), with and without a random adversary step
     n_stress = 40 if quick else 100
-    ops = ["flip", "dup", "drop", "swap", "splice", "replaycp"]
+    ops = ["flip", "dup", "drop", "swap", "splice", "replaycp", "delaycps"]
     for k in range(n_stress):
         g = rng.choice([1, 2, 3, 4, 8, 12, 16])
         per = rng.choice([3, 10, 25]) if quick else rng.choice([3, 10, 25, 40])
